@@ -1,6 +1,7 @@
 (* C15 — JSSP encoding is total, complete and injective.
    Property theorems only: each closed by `exact <lemma>` and followed by Print Assumptions. *)
 From QV Require Import Jssp.Energy Jssp.Encoder_proofs.
+From QV Require Import Jssp.Statements Jssp.Assembly_proofs.
 Open Scope Z_scope.
 
 (* The behaviour before commit 3918627 (legacy = true: SparsePauliOp.sum of an empty list): a single job with a single
@@ -121,3 +122,25 @@ Example C15_injective_needs_all_scheduled :
   /\ translate ex22 5 ex22_inv1 = translate ex22 5 ex22_inv2.
 Proof. exact ex22_unscheduled_not_injective. Qed.
 Print Assumptions C15_injective_needs_all_scheduled.
+
+(* ------------------------------------------------------------------ assembled statements *)
+
+(* The limit accommodates every job: the qubit count is the closed form; the (repaired) Hamiltonian exists exactly when
+   there is at least one qubit -- then the instance has a job and every qubit index in H is below the count -- and is
+   a ValueError with zero qubits (pauli_identity_string(0)); every bitstring of that length decodes to a result of the
+   instance's shape. *)
+Theorem C15_total : forall I L P, wf_instance I = true -> limit_ok I L ->
+  exists n, n_qubits I L = Ok n /\ Z.of_nat n = total_qubits I L
+  /\ ((1 <= n)%nat -> inst_jobs I <> [] /\ exists H, hamiltonian false P I L = Ok H /\ qubits_below n H = true)
+  /\ (n = 0%nat -> hamiltonian false P I L = Err ValueError)
+  /\ (forall bits, length bits = n -> exists s, translate I L bits = Ok s /\ shaped_like I s).
+Proof. exact asm_C15_total. Qed.
+Print Assumptions C15_total.
+
+(* The defect fixed by 3918627 in general form: whenever every job consists of a single operation (no consecutive
+   pair, hence an empty list of precedence terms) the legacy variant raises QiskitError although qubits exist. *)
+Theorem C15_legacy_empty_sum : forall I L P n, wf_instance I = true -> limit_ok I L -> n_qubits I L = Ok n ->
+  (1 <= n)%nat -> (forall j, In j (inst_jobs I) -> length (job_ops j) = 1%nat) ->
+  hamiltonian true P I L = Err QiskitError.
+Proof. exact asm_C15_legacy_empty_sum. Qed.
+Print Assumptions C15_legacy_empty_sum.
